@@ -374,7 +374,7 @@ func (g *gen) inputVal(name string, allowed []string, rank int) InputVal {
 	return iv
 }
 
-var stringPool = []string{"", "plain", "with \"quotes\"", "back\\slash", "new\nline", "tab\there", "cr\rlf\n", "ünï ✓ 日本", " sep ", "<html>&amp;", "\x00\x01\x1f\x7f", "\b\f", "\\u0041", "\"\"\"", "#not a comment", "﻿bom", "�", "{a: 1}", "$var", "end\\"}
+var stringPool = []string{"", "plain", "with \"quotes\"", "back\\slash", "new\nline", "tab\there", "cr\rlf\n", "ünï ✓ 日本", " sep ", "<html>&amp;", "\x00\x01\x1f\x7f", "\b\f", "\\u0041", "\"\"\"", "#not a comment", "\ufeffbom", "\ufffd", "{a: 1}", "$var", "end\\"}
 
 func (g *gen) str() string {
 	if g.o.AstralStrings && g.r.Chance(1, 3) {
